@@ -560,8 +560,20 @@ func (d *protoDom) call(st *sState, call *ssa.Call, name string, args []sVal) (b
 		bw, ok3 := d.intArg(args[2])
 		if ok1 && ok2 && ok3 {
 			x, y = d.normInt(st, x), d.normInt(st, y)
-			if x.op == "byte" && y.op == "byte" && x.k == y.k {
-				X, Y := x.args[0], y.args[0]
+			// an operand is byte i of a string, or the big-endian word formed by bytes [lo, hi) of it
+			part := func(t *pt) (*pt, int, int, bool) {
+				if t.op == "byte" && len(t.args) == 1 {
+					return t.args[0], t.k, t.k + 1, true
+				}
+				if t.op == "val" && len(t.args) == 1 && t.args[0].op == "sub" && t.args[0].n != nil {
+					sb := t.args[0]
+					return sb.args[0], sb.k, int(sb.n.Int64()), true
+				}
+				return nil, 0, 0, false
+			}
+			X, xlo, xhi, okx := part(x)
+			Y, ylo, yhi, oky := part(y)
+			if okx && oky && xlo == ylo && xhi == yhi && xhi > xlo {
 				n := d.lenOf(st, X)
 				k := -1
 				switch {
@@ -570,9 +582,10 @@ func (d *protoDom) call(st *sState, call *ssa.Call, name string, args []sVal) (b
 				case bw.op == "brw" && bw.args[0].String() == X.String() && bw.args[1].String() == Y.String():
 					k = bw.k
 				}
-				if n > 0 && n == d.lenOf(st, Y) && k >= 0 && x.k == n-1-k {
-					if k+1 < n {
-						set([]sVal{sOpaque{"difference byte"}, pInt{&pt{op: "brw", args: []*pt{X, Y}, k: k + 1}}})
+				if n > 0 && n == d.lenOf(st, Y) && k >= 0 && xhi == n-k {
+					k1 := k + (xhi - xlo) // bytes covered after this step
+					if k1 < n {
+						set([]sVal{sOpaque{"difference word"}, pInt{&pt{op: "brw", args: []*pt{X, Y}, k: k1}}})
 						return true, nil
 					}
 					ge := st.clone()
